@@ -28,7 +28,7 @@ TRUSTED_BASE = [
     'session is dropped with it, whether quitmsg() forgets the route settings, whether main() refuses a tlshosts host outside TLS, that TLSA is '
     'asked for the list head, '
     'command texts, first words of the reports; structural regexes fail loudly when the surrounding code changes shape',
-    'hand-written model coq/Model/TlsSwitch.v (reusing the byte-level line reader model coq/Model/NetRead.v of C05) tied to the C by the '
+    'hand-written model coq/Model/TlsClient.v (reusing the byte-level line reader model coq/Model/NetRead.v of C05) tied to the C by the '
     'correspondence run: byte-identical event list (connections, every write with its channel, every net_read result with channel and unconsumed '
     'byte count, handshake with buffered byte count, verification, start of transmission with smtpext), exit and report codes',
     'boolean specification coq/Spec/TlsSwitchSpec.v:spec_ok_C18 is the function the theorems speak about and the one run on the C observations',
